@@ -687,10 +687,20 @@ def corrupt_selftest(chk, sessions):
     """The trace specification must reject a trace in which one cursor / one relabelled type / one
     table value was changed (non-vacuity of direction B)."""
     want = {}
+    tried = 0
     for recs, _ in sessions:
         if any("raised" in r for r in recs):
             continue
         ops = [r["op"] for r in recs]
+        if ("open" in ops and "cursor" not in want) or ("log" in ops and "log" not in want):
+            # the self-test corrupts ONE field of an otherwise accepted session: a session the specification
+            # already rejects (a library violation, reported by validate_sessions) cannot serve
+            if tried >= 12:
+                break
+            tried += 1
+            _res, rej0 = validate_trace("TraceAuxIO", recs, constants={"SCALE": SCALE})
+            if rej0 is not None:
+                continue
         if "open" in ops and "cursor" not in want:
             i = next((i for i, r in enumerate(recs) if r["op"] in ("plain", "centre", "vector") and r["obs"]["eof"] == 0), None)
             if i is not None:
